@@ -227,7 +227,7 @@ struct Exec {
             else if (fam == 2) rc = is_read ? ncmpi_get_vard_all(ncid, op.var, MPI_DATATYPE_NULL, &dummy, 0, MPI_INT) : ncmpi_put_vard_all(ncid, op.var, MPI_DATATYPE_NULL, &dummy, 0, MPI_INT);
             else rc = is_read ? ncmpi_get_vara_all(ncid, op.var, st.data(), ct.data(), &dummy, 0, MPI_INT) : ncmpi_put_vara_all(ncid, op.var, st.data(), ct.data(), &dummy, 0, MPI_INT);
             sim::set_in_lib(false);
-            rc_check(op, opi, rc, NC_NOERR, false); return;
+            rc_check(op, opi, rc, a.exp_rc, a.rc_any); return;   // NC_NOERR unless safe mode shares another rank's error
         }
         std::shared_ptr<UserBuf> ub;
         int rc = issue(op, opi, a, is_read ? K_GET : K_PUT, ncid, ub, nullptr);
